@@ -8,7 +8,7 @@ WT='/tmp/govc_seedwt_%d/repo' % os.getpid()
 def sh(*a,**k): return subprocess.run(list(a),capture_output=True,text=True,**k)
 sh('git','-C','/repo','worktree','remove','--force',WT); shutil.rmtree(os.path.dirname(WT),ignore_errors=True); sh('git','-C','/repo','worktree','prune')
 os.makedirs(os.path.dirname(WT),exist_ok=True)
-r=sh('git','-C','/repo','worktree','add','--detach',WT,'HEAD')
+r=sh('git','-C','/repo','worktree','add','--detach',WT,os.environ.get('SEED_REPO_REV','HEAD'))
 if r.returncode!=0: print(r.stderr); sys.exit(3)
 claimed=[c['property_id'] for c in json.load(open(ROOT+'/MANIFEST.json'))['checks']]
 OTHERS='--others' in sys.argv
